@@ -366,7 +366,7 @@ class Interp:
         if isinstance(o, dict):
             if a in o: return o[a]
             if a == "items": return Builtin(lambda: list(o.items()))
-            raise PyRaise(EXC["AttributeError"], f"namespace has no attribute {a}")
+            raise Unsupported(f"library attribute '{a}' has no model (engine limitation, not a program error)")
         if isinstance(o, Unresolved): return Unresolved(f"{o.name}.{a}")
         if hasattr(self, "PathV") and isinstance(o, self.PathV): return self.path_attr(o, a)
         v = value_getattr(self, o, a)
